@@ -130,8 +130,12 @@ func runCfCase(c CfCase, tag string) (string, map[string]int) {
 	defer os.Remove(yp)
 	var parsed config.Config
 	perr := yaml.Unmarshal([]byte(c.YAML), &parsed)
-	_, lerr := config.LoadConfig(yp)
-	loaded := lerr == nil
+	lc, lerr := config.LoadConfig(yp)
+	// loaded: the file is accepted AND what is started with is what the file says (no value rewritten on the way)
+	loaded := lerr == nil && lc != nil && perr == nil && reflect.DeepEqual(*lc, parsed)
+	if lerr == nil && !loaded {
+		stats["loaded_differs"]++
+	}
 	parses := perr == nil
 	validates := parses && parsed.Validate() == nil
 	chainOK := false
@@ -291,7 +295,7 @@ func genCfConfig(g *Rng) config.Config {
 				c.LoadBalancer.Strategy = ""
 			}
 		case 5:
-			c.HealthChecks.Active = config.ActiveHealthCheckConfig{Enabled: g.Chance(80), Interval: ints(-1, 0, 1, 5, 10), Timeout: ints(-1, 0, 1, 4, 5, 6), Path: []string{"", "/health", "health"}[g.Intn(3)]}
+			c.HealthChecks.Active = config.ActiveHealthCheckConfig{Enabled: g.Chance(80), Interval: ints(-1, 0, 1, 5, 10), Timeout: ints(-1, 0, 1, 4, 5, 6), Path: []string{"", "/health", "health", "/he${x}alth", "/$health"}[g.Intn(5)]}
 		case 6:
 			c.HealthChecks.Passive = config.PassiveHealthCheckConfig{Enabled: g.Chance(80), UnhealthyThreshold: ints(-1, 0, 1, 3), UnhealthyTimeout: ints(-1, 0, 1, 30)}
 		case 7:
@@ -301,7 +305,7 @@ func genCfConfig(g *Rng) config.Config {
 				FailureThreshold: ints(-1, 0, 1, 5), SuccessThreshold: ints(-1, 0, 1, 2, 3, 5, 6)}
 		case 9:
 			c.Metrics = config.MetricsConfig{Enabled: g.Chance(80), Port: ints(-1, 0, 1, 9090, 65535, 65536, 8080), Path: []string{"", "/metrics"}[g.Intn(2)]}
-			c.AdminAPI = config.AdminAPIConfig{Enabled: g.Chance(60), Port: ints(-1, 0, 1, 9091, 65535, 65536, 9090, 8080), AuthToken: []string{"", "tok"}[g.Intn(2)]}
+			c.AdminAPI = config.AdminAPIConfig{Enabled: g.Chance(60), Port: ints(-1, 0, 1, 9091, 65535, 65536, 9090, 8080), AuthToken: []string{"", "tok", "tok$en-4f7a", "$2a$10$abcdefghijklmnopqrstuv"}[g.Intn(4)]}
 		default:
 			c.Logging.Level = []string{"", "debug", "info", "warn", "error", "fatal", "trace", "INFO", "warning"}[g.Intn(9)]
 			c.Logging.Format = []string{"", "text", "json", "console", "pretty", "JSON", "logfmt"}[g.Intn(7)]
@@ -323,7 +327,7 @@ func genCfConfig(g *Rng) config.Config {
 		case 2:
 			c.Backends = append(c.Backends, config.BackendConfig{Name: "s2", Address: ""})
 		case 3:
-			c.Backends = append(c.Backends, config.BackendConfig{Name: "s2", Address: "http://127.0.0.1:9002", Weight: ints(-1, 0, 5)})
+			c.Backends = append(c.Backends, config.BackendConfig{Name: []string{"s2", "$blue", "s$2", "${POOL}-a"}[g.Intn(4)], Address: "http://127.0.0.1:9002", Weight: ints(-1, 0, 5)})
 		default:
 			c.Backends = append([]config.BackendConfig{{Name: "s0", Address: "http://127.0.0.1:9000", Weight: ints(-2, 0, 1)}}, c.Backends...)
 		}
